@@ -110,7 +110,7 @@ func Obligations(t *Truth) *Report {
 							// latest success with End <= u (in a cluster: from an instance that knew the alert)
 							for j := len(succ) - 1; j >= 0; j-- {
 								if !succ[j].End.After(u) {
-									if r.InstanceKnows != nil && !r.InstanceKnows(succ[j].Instance, k, succ[j].Tick) {
+									if r.InstanceKnows != nil && !r.InstanceKnows(succ[j].Instance, k, succ[j].Start) {
 										continue
 									}
 									covered = contains(succ[j].Firing(), k)
